@@ -1477,6 +1477,7 @@ func genInject(r *rand.Rand, tier string, emit Emit) {
 	g.fixedFlameSessions()
 	g.serviceSessions()
 	g.resultSessions(nFlame / 5)
+	genInjectChan(r, emit, nFlame/4)
 	for n := 1; n <= exScopes; n++ {
 		g.exhaustiveInject(n)
 	}
